@@ -38,6 +38,19 @@ class LoopView:
         v = st.env[name]
         return st.get(v) if isinstance(v, VRef) else v
 
+    def obj_of_kind(self, name, cls, st=None):
+        """the object the local `name` refers to; when no local has that name any more (a renamed temporary), the UNIQUE local that
+        refers to an object of class `cls` - invariants speak about the accumulator, not about what it is called"""
+        st = st or self.st
+        v = st.env.get(name)
+        if isinstance(v, VRef) and isinstance(st.get(v), cls):
+            return st.get(v)
+        cands = [x for x in st.env.values() if isinstance(x, VRef) and isinstance(st.get(x), cls)]
+        uniq = {x.loc: x for x in cands}
+        if len(uniq) == 1:
+            return st.get(next(iter(uniq.values())))
+        raise OutOfReach('no local named %s and no unique local of kind %s' % (name, cls.__name__))
+
     def old(self, name):
         return self.entry.env[name]
 
@@ -885,6 +898,16 @@ class Engine:
             text = 'while ' + ast.unparse(n.test)
         else:
             text = 'for %s in %s' % (ast.unparse(n.target), ast.unparse(n.iter))
+        # the ordinal is the loop's STATIC position in the function under verification (source order), so that it is the same on
+        # every path and survives edits to the loop's text; loops of inlined helpers / closures fall back to the visit count
+        fn = getattr(self, 'fn_node', None)
+        if fn is not None:
+            static = getattr(self, '_static_loops', None)
+            if static is None:
+                static = self._static_loops = sorted((x for x in ast.walk(fn) if isinstance(x, (ast.For, ast.While))), key=lambda x: (x.lineno, x.col_offset))
+            for i, x in enumerate(static):
+                if x is n:
+                    return i + 1, text
         return self.loop_ordinal, text
 
     def find_loop_spec(self, ordinal, text):
@@ -903,7 +926,7 @@ class Engine:
             return self.loops[fb[text]]
         if ordinal <= len(keys):
             key = keys[ordinal - 1]
-            if isinstance(key, str) and key.split(' ')[0] == text.split(' ')[0] and key not in self.loop_specs_used:
+            if isinstance(key, str) and key.split(' ')[0] == text.split(' ')[0] and (key not in self.loop_specs_used or getattr(self, 'fn_node', None) is not None):
                 self.loop_specs_used.add(key)
                 fb[text] = key
                 return self.loops[key]
@@ -915,6 +938,7 @@ class Engine:
     def s_While(self, n, st):
         ordinal, text = self.loop_key(n)
         spec = self.find_loop_spec(ordinal, text)
+        text = '#%d %s' % (ordinal, text)          # obligation names carry the static position: the lock keys on it, not on the text
         if spec is None:
             if self.default_loop is not None:
                 try:
@@ -957,6 +981,7 @@ class Engine:
     def s_For(self, n, st):
         ordinal, text = self.loop_key(n)
         spec = self.find_loop_spec(ordinal, text)
+        text = '#%d %s' % (ordinal, text)
 
         def k(st1, itv):
             it = self.models.iterate(self, itv, st1)
